@@ -4,12 +4,15 @@ package c19
 
 import (
 	"context"
+	"encoding/json"
 	"fmt"
 	"os"
 	"path/filepath"
 	"testing"
 	"time"
 
+	"github.com/pingcap/kvproto/pkg/metapb"
+	"github.com/pingcap/kvproto/pkg/pdpb"
 	pb "github.com/pingcap/kvproto/pkg/replication_modepb"
 	"github.com/tikv/pd/pkg/mock/mockcluster"
 	"github.com/tikv/pd/server/config"
@@ -196,4 +199,86 @@ func TestProbe_UnknownStateString(t *testing.T) {
 		}
 		t.Logf("persisted record %s is served as %v", rec, toObs(m.GetReplicationStatus()))
 	}
+}
+
+const keyReplicateStops = "C19/file-replication-stops-at-first-unreachable-member"
+
+// Three pd members in dr-auto-sync mode; one follower that is listed before another member is stopped; the leader
+// makes a transition (online label-key change -> async). Server.ReplicateFileToAllMembers returns at the first
+// member it cannot reach and drPersistStatus drops the error, so the reachable members listed AFTER the stopped
+// one are never offered the new DR_STATE although the state is persisted and served.
+func TestFinding_FileReplicationStopsAtFirstUnreachableMember(t *testing.T) {
+	x, why := mbStart(3)
+	if x == nil {
+		vkit.Finding(t, keyReplicateStops, false, "inconclusive: "+why)
+		return
+	}
+	defer x.destroy()
+	ld := x.leader(false)
+	if ld == nil {
+		vkit.Finding(t, keyReplicateStops, false, "inconclusive: no leader")
+		return
+	}
+	cl, err := x.client(ld)
+	if err != nil {
+		vkit.Finding(t, keyReplicateStops, false, "inconclusive: "+err.Error())
+		return
+	}
+	ctx := context.Background()
+	if _, err := cl.Bootstrap(ctx, &pdpb.BootstrapRequest{Header: x.header(),
+		Store:  &metapb.Store{Id: 1, Address: "127.0.0.1:1"},
+		Region: &metapb.Region{Id: 2, Peers: []*metapb.Peer{{Id: 3, StoreId: 1, Role: metapb.PeerRole_Voter}}}}); err != nil {
+		vkit.Finding(t, keyReplicateStops, false, "inconclusive: bootstrap: "+err.Error())
+		return
+	}
+	if ld = x.leader(true); ld == nil {
+		vkit.Finding(t, keyReplicateStops, false, "inconclusive: no running leader")
+		return
+	}
+	members, err := ld.GetServer().GetMembers(ctx, nil)
+	if err != nil || len(members.GetMembers()) != 3 {
+		vkit.Finding(t, keyReplicateStops, false, fmt.Sprintf("inconclusive: member list: %v", err))
+		return
+	}
+	// the first listed member that is not the leader is stopped; whoever is listed after it must still be offered
+	var order []string
+	stopIdx := -1
+	for i, m := range members.GetMembers() {
+		order = append(order, m.GetName())
+		if stopIdx < 0 && m.GetName() != ld.GetConfig().Name {
+			stopIdx = i
+		}
+	}
+	stopped := order[stopIdx]
+	if err := x.tc.GetServer(stopped).Stop(); err != nil {
+		vkit.Finding(t, keyReplicateStops, false, "inconclusive: stop: "+err.Error())
+		return
+	}
+	time.Sleep(500 * time.Millisecond)
+	if ld = x.leader(true); ld == nil || ld.GetConfig().Name == stopped {
+		vkit.Finding(t, keyReplicateStops, false, "inconclusive: leader lost after stopping a follower")
+		return
+	}
+	cfg := ld.GetServer().GetReplicationModeConfig().Clone()
+	cfg.DRAutoSync.LabelKey = "dc"
+	if err := ld.GetServer().SetReplicationModeConfig(*cfg); err != nil {
+		vkit.Finding(t, keyReplicateStops, false, "inconclusive: label key change refused: "+err.Error())
+		return
+	}
+	served, _ := recOf(ld.GetRaftCluster().GetReplicationMode().GetReplicationStatus())
+	detail := fmt.Sprintf("member list %v, leader %s, stopped %s; after the label-key change stores are served %v;", order, ld.GetConfig().Name, stopped, served)
+	reproduced := false
+	for i, name := range order {
+		if name == stopped {
+			continue
+		}
+		data, _ := os.ReadFile(filepath.Join(x.tc.GetServer(name).GetConfig().DataDir, "DR_STATE"))
+		var rec mbRec
+		json.Unmarshal(data, &rec)
+		detail += fmt.Sprintf(" reachable member %s (position %d) holds %v;", name, i, rec)
+		if rec != served {
+			reproduced = true
+		}
+	}
+	vkit.Finding(t, keyReplicateStops, reproduced, detail)
 }
